@@ -1039,13 +1039,31 @@ func (fc *FuncCtx) builtin(res ssa.Value, b *ssa.Builtin, c *ssa.CallCommon, arg
 		sl := c.Args[0].Type().Underlying().(*types.Slice)
 		st = st.clone()
 		h := eng.elemHeap(sl.Elem())
-		fresh := q.fresh(fc.pfx+"copy", "(Array Int "+eng.sorts.sortOf(sl.Elem())+")")
-		st.set(h, fmt.Sprintf("(store %s (s-arr %s) %s)", st.get(h), dst.T, fresh))
-		if res != nil {
-			tv := fc.freshVal(res)
-			q.assume(fmt.Sprintf("(and (<= 0 %s) (<= %s (s-len %s)))", tv.T, tv.T, dst.T))
+		es := eng.sorts.sortOf(sl.Elem())
+		fresh := q.fresh(fc.pfx+"copy", "(Array Int "+es+")")
+		old := st.get(h)
+		src := args[1]
+		var n string
+		if src.S == "Str" {
+			n = q.define(fc.pfx+"copy_n", "Int", fmt.Sprintf("(ite (<= (s-len %s) (str.len %s)) (s-len %s) (str.len %s))", dst.T, src.T, dst.T, src.T))
+			q.assume(fmt.Sprintf("(forall ((k Int)) (! (=> (and (<= 0 k) (< k %s)) (= (select %s (+ (s-off %s) k)) (str.at %s k))) :pattern ((select %s (+ (s-off %s) k)))))", n, fresh, dst.T, src.T, fresh, dst.T))
+		} else {
+			// memmove semantics: the source is read in the state before the call
+			n = q.define(fc.pfx+"copy_n", "Int", fmt.Sprintf("(ite (<= (s-len %s) (s-len %s)) (s-len %s) (s-len %s))", dst.T, src.T, dst.T, src.T))
+			q.assume(fmt.Sprintf("(forall ((k Int)) (! (=> (and (<= 0 k) (< k %s)) (= (select %s (+ (s-off %s) k)) (select (select %s (s-arr %s)) (+ (s-off %s) k)))) :pattern ((select %s (+ (s-off %s) k)))))", n, fresh, dst.T, old, src.T, src.T, fresh, dst.T))
 		}
-		eng.warn("%s: builtin copy: copied contents not modelled", fc.fnName)
+		// everything outside the copied window keeps its contents
+		q.assume(fmt.Sprintf("(forall ((k Int)) (! (=> (or (< k (s-off %s)) (>= k (+ (s-off %s) %s))) (= (select %s k) (select (select %s (s-arr %s)) k))) :pattern ((select %s k))))", dst.T, dst.T, n, fresh, old, dst.T, fresh))
+		st.set(h, fmt.Sprintf("(ite (= %s 0) %s (store %s (s-arr %s) %s))", n, old, old, dst.T, fresh))
+		fc.elemFrame(h, old, st.get(h), "(s-arr "+dst.T+")")
+		if src.S != "Str" {
+			// the same fact in the elem_X vocabulary contracts use
+			ef := eng.elemFn(es)
+			q.assume(fmt.Sprintf("(forall ((k Int)) (! (=> (and (<= 0 k) (< k %s)) (= (%s %s %s k) (%s %s %s k))) :pattern ((%s %s %s k))))", n, ef, st.get(h), dst.T, ef, old, src.T, ef, st.get(h), dst.T))
+		}
+		if res != nil {
+			fc.setVal(res, n)
+		}
 		return st
 	case "delete":
 		m := args[0]
@@ -1129,7 +1147,7 @@ func (fc *FuncCtx) appendOp(res ssa.Value, c *ssa.CallCommon, args []TV, st *Sta
 	// the same facts in the elem_X vocabulary contracts use
 	ef := eng.elemFn(es)
 	nh := st.get(eh)
-	q.assume(fmt.Sprintf("(forall ((k Int)) (! (=> (and (<= 0 k) (< k (s-len %s))) (= (%s %s %s k) (%s %s %s k))) :pattern ((%s %s %s k))))", s.T, ef, nh, tv.T, ef, h, s.T, ef, nh, tv.T))
+	q.assume(fmt.Sprintf("(forall ((k Int)) (! (=> (and (<= 0 k) (< k (s-len %s))) (= (%s %s %s k) (%s %s %s k))) :pattern ((%s %s %s k)) :pattern ((%s %s %s k))))", s.T, ef, nh, tv.T, ef, h, s.T, ef, nh, tv.T, ef, h, s.T))
 	if lits := fc.varargElems(c.Args[1], st); lits != nil {
 		for i, el := range lits {
 			q.assume(fmt.Sprintf("(= (%s %s %s (+ (s-len %s) %d)) %s)", ef, nh, tv.T, s.T, i, el))
